@@ -312,6 +312,29 @@ func lockPoint(fr *frame, what string) {
 // txn:<file>:<line> — the granularity at which snapshot reads of concurrent
 // clients interleave. The replay build has verifhook.Point inserted before the
 // same statements.
+// txnBodyPoint: the start of the closure of a DB.Update — after the transaction took its
+// snapshot, before it commits — is a scheduling point txnbody:<file>:<line> under
+// h.SymbolicTxns(): this is where another client's commit lands inside an optimistic
+// read-modify-write. The replay build has verifhook.Point as the first statement of the closure.
+func txnBodyPoint(fr *frame) {
+	p := fr.i.path
+	s := p.sched
+	if s == nil || !s.txnPoints || fr.caller == nil || fr.caller.fn == nil {
+		return
+	}
+	file := fr.i.prog.Fset.Position(fr.caller.fn.Pos()).Filename
+	if !inRepo(file) {
+		return
+	}
+	name := "txnbody:" + mutexName(fr)
+	th := s.cur
+	if th.pointHits == nil {
+		th.pointHits = map[string]int{}
+	}
+	th.pointHits[name]++
+	s.yield(fmt.Sprintf("point:%s#%d", name, th.pointHits[name]))
+}
+
 func txnPoint(fr *frame) {
 	p := fr.i.path
 	s := p.sched
